@@ -141,6 +141,23 @@ CLAIMED["C07"] = dict(
     technique="Lean 4 proof (well-founded recursion + location invariant) + exact correspondence + deadline-guarded exploration",
 )
 
+CLAIMED["C14"] = dict(
+    text="Lean theorems about the source semantics Src.evalExpr/evalStmt (the specification every compiled circuit is compared "
+         "with): C14_scope - evaluating ANY expression or statement list leaves the list of bound names exactly as it was / only "
+         "adds the statement list's own bindings in front, so every binding made inside a block, branch, arm, loop iteration or "
+         "callee ends with its scope, a shadowing one included (induction over the evaluation fuel, all 8 mutually recursive "
+         "evaluators); C14_assign_frame - an assignment changes no variable other than its target; C14_element_frame - a[i] = v "
+         "changes no other element; C14_call_by_value - the caller keeps the environment the argument evaluation left; "
+         "C14_if_taken_branch / C14_loop_order - an if runs the branch taken, a loop its body once per element in order. "
+         "PARTIAL: the compiler's merging of variables (mux_envs, Env scopes in compile.rs) is not modelled; it is tied to "
+         "these semantics by the correspondence: generated statement-heavy programs that return ALL visible variables, compiled "
+         "by /repo in 4 circuit configurations and compared bit for bit with the Lean semantics.",
+    design_ref="DESIGN.md §6 C14",
+    note="trusted: Lean kernel; Model/SrcSem.lean is the hand-written specification (not derived from compile.rs); the generator "
+         "builds the syntax tree itself, so parser and type checker are on the tested side",
+    technique="Lean 4 proof (environment-shape invariant over the interpreter) + differential testing against the compiler",
+)
+
 CLAIMED["C06"] = dict(
     text="(1) Kernel-checked obligation extracted_hashIterSites: the list of HashMap/HashSet iteration sites of /repo/src, REGENERATED "
          "from the source on every run, equals the audited list in which every site carries the reason why its order cannot reach "
